@@ -7,7 +7,7 @@ name=$1; src=$2; prop=$3
 W=/tmp/wt/confirm_$name
 git -C /repo worktree remove --force $W 2>/dev/null
 /verif/tools/mkwt.sh confirm_$name >/dev/null || exit 2
-bd() { gcc -g -w -I$W -I$W/htp -D_GNU_SOURCE -DHAVE_CONFIG_H $src/demo.c $W/htp/*.c $W/htp/lzma/*.c -lz -lpthread -o $W/demo_bin 2>$W/demo_build.log; }
+bd() { gcc -g -w -I$W -I$W/htp -D_GNU_SOURCE -DHAVE_CONFIG_H $src/demo.c $W/htp/*.c $W/htp/lzma/*.c -lz -lpthread ${EXTRA_LD:-} -o $W/demo_bin 2>$W/demo_build.log; }
 bd || { echo "demo does not build on clean tree"; tail -5 $W/demo_build.log; exit 2; }
 ( cd $src && timeout 120 $W/demo_bin >/dev/null 2>&1 ); r0=$?
 git -C $W apply $src/patch.diff || { echo "patch does not apply"; exit 2; }
